@@ -346,7 +346,16 @@ func runC19(c *Ctx) {
 			c.Diag("raw session: %v", err)
 			continue
 		}
-		for i, name := range []string{"hardlink@openssh.com", "posix-rename@openssh.com", "statvfs@openssh.com", "fsync@openssh.com", "x@example.com", "", "statvfs@openssh.co", "STATVFS@OPENSSH.COM"} {
+		for i, name := range []string{"hardlink@openssh.com", "posix-rename@openssh.com", "statvfs@openssh.com", "fsync@openssh.com", "x@example.com", "", "statvfs@openssh.co", "STATVFS@OPENSSH.COM",
+			// names are the peer's bytes: nothing in them (a per cent sign, a NUL, a line break, non-ASCII, 300 characters) is special
+			"100%-made-up@example.com", "%", "%s", "%w", "%!d(x)@example.com", "statvfs%40openssh.com", "a\x00b@example.com", "line\nbreak@example.com",
+			"\xfc\xf6@\xe4.example", strings.Repeat("n", 300) + "@example.com"} {
+			if rs == nil {
+				if rs, err = newRawSession(pairOpt{reqServer: reqServer, handlers: nullHandlerSet(), readOnly: readOnly}); err != nil {
+					c.Diag("raw session: %v", err)
+					break
+				}
+			}
 			payload := (&rb{}).str("/nonexistent-vh-a").str("/nonexistent-vh-b").b
 			if strings.HasPrefix(name, "statvfs") {
 				payload = (&rb{}).str("/").b
@@ -366,6 +375,8 @@ func runC19(c *Ctx) {
 			ok, why := true, ""
 			if err != nil || !cont {
 				ok, why = false, fmt.Sprintf("session ended after extended request %q", name)
+				rs.Close() // the next name gets a session of its own
+				rs = nil
 			} else if i >= 3 && !unsupported {
 				// a name the server does not serve is answered "operation unsupported" whatever the server's configuration
 				ok, why = false, fmt.Sprintf("unknown-extension-not-unsupported: extended request %q answered status %d (is status: %v) instead of 8 (req=%v readonly=%v)", name, code, isStatus, reqServer, readOnly)
@@ -375,7 +386,9 @@ func runC19(c *Ctx) {
 				c.NT(n)
 			}
 		}
-		rs.Close()
+		if rs != nil {
+			rs.Close()
+		}
 	}
 }
 
